@@ -111,6 +111,12 @@ class Runner(object):
             if d:
                 self.fail('.fpz cycle %d: reloaded database differs from the original in %s' % (c + 1, d), pl, 'fpz:field:' + d[0])
             try:
+                arr = nxt.array
+                if arr.nnz and (int(arr.indices.min()) < 0 or int(arr.indices.max()) >= arr.shape[1] or int(arr.indptr[-1]) != arr.nnz):
+                    # structurally invalid CSR (scipy's C routines would read out of bounds and kill the interpreter)
+                    self.fail('.fpz cycle %d: the reloaded sparse array is structurally invalid (column indices %d..%d for %d columns)'
+                              % (c + 1, int(arr.indices.min()), int(arr.indices.max()), arr.shape[1]), pl, 'fpz:invalid-csr')
+                    break
                 # scipy subtracts non-canonical CSR operands with O(bits) scratch memory: MemoryError at 2^32 columns
                 if (spec['how'] != 'noncanon' or o0['bits'] <= 2 ** 16) and not (db == nxt and nxt == db):
                     self.fail('.fpz cycle %d: reloaded database is not == the original' % (c + 1), pl, 'fpz:eq')
